@@ -15,6 +15,7 @@ pub mod state;
 pub mod vstore;
 
 pub mod oracle;
+pub mod c02;
 pub mod c03;
 pub mod c04;
 pub mod c05;
